@@ -6,6 +6,7 @@ import (
 	"io"
 	"math"
 	"strconv"
+	"strings"
 
 	"reflect"
 
@@ -118,12 +119,30 @@ func intFromConvertible(from px.Value, radix int) int64 {
 	case booleanValue:
 		return from.Int()
 	default:
-		i, err := strconv.ParseInt(from.String(), radix, 64)
+		i, err := integerFromString(from.String(), radix)
 		if err == nil {
 			return i
 		}
 		panic(px.Error(px.NotInteger, issue.H{`value`: from}))
 	}
+}
+
+// integerFromString converts a string on the form accepted by the IntegerPattern into an integer, i.e. an optional
+// sign, optional white space, and then digits that may be preceded by the prefix that denotes the given radix
+func integerFromString(s string, radix int) (int64, error) {
+	sign := ``
+	if s != `` && (s[0] == '-' || s[0] == '+') {
+		sign = s[:1]
+		s = s[1:]
+	}
+	s = strings.TrimLeft(s, " \t\n\f\r")
+	if len(s) > 2 && s[0] == '0' {
+		// strconv.ParseInt does not accept the prefix when the radix is given
+		if radix == 16 && (s[1] == 'x' || s[1] == 'X') || radix == 2 && (s[1] == 'b' || s[1] == 'B') {
+			s = s[2:]
+		}
+	}
+	return strconv.ParseInt(sign+s, radix, 64)
 }
 
 func DefaultIntegerType() *IntegerType {
